@@ -416,6 +416,7 @@ func genC07N(seed uint64, run int, tier string) Scenario {
 		sc.TimeoutOpsUS = 5000
 	}
 	sc.F.CloseMode = pick(r, "eof", "eof", "err", "stuck")
+	sc.F.CloseReturnsErr = r.IntN(5) == 0
 	sc.State = pick(r, c07NStates...)
 	rdUS := sc.ReadDelayUS
 	if rdUS == 0 {
